@@ -94,6 +94,16 @@ def run(ctx):
         # the cut recorded in the lineage frame comes from the full replay of the source thread, never from a
         # bounded cache scan (a tail window does not know whether the last message lies before it)
         cache_dests = {s_.dest['l'] for s_ in f.sites() if re.search(r'^ripd::continuity_stream_cache::ContinuityStreamCache::(?!append_best_effort|new)', s_.callee)}
+        # ... also through a helper of the store that answers from the caches (`head_cut_from_sidecars_v1`): a callee of the crate,
+        # other than the sanctioned replay, that reaches a cache read within two calls
+        CACHE_RD = r'^ripd::continuity_stream_cache::ContinuityStreamCache::(?!append_best_effort|new|rebuild_)'
+        for s_ in f.sites():
+            H_ = P.fns.get(s_.callee or '')
+            if H_ is None or H_.crate != 'ripd' or s_.dest is None or re.search(r'::(replay_events|create_continuity|load_next_seq_for)$', s_.callee) or re.search(CACHE_RD, s_.callee):
+                continue
+            inner = [x for x in H_.sites()] + [y for x in H_.sites() if (x.callee or '') in P.fns and P.fns[x.callee].crate == 'ripd' and not re.search(r'::(replay_events|create_continuity)$', x.callee) for y in P.fns[x.callee].sites()]
+            if any(re.search(CACHE_RD, x.callee or '') for x in inner):
+                cache_dests.add(s_.dest['l'])
         # ... nor from a second look at the store's state (the seq table): the cut seq and the cut message must come from
         # ONE snapshot of the source thread, the replay
         from .c01 import SEQ_GUARD
@@ -129,6 +139,9 @@ def run(ctx):
             ctx.ob('C10.1', f, 'single-appending-call', all(any(s.bb == c_.bb for c_ in ccs) for s in E.sites_with(f, 'TruthAppend')) and not any(f.can_reach(c1.bb, c2.bb) for c1 in ccs for c2 in ccs if c1 is not c2), 'the only appending call of %s is create_continuity' % name, line=cc.line)
             after = f.reach_from_after(cc.bb)
             local_errs = [(bi, st) for (bi, si, st) in f.aggregates(r'^core::result::Result$', 'Err') if st['d']['l'] == 0 and 'p' not in st['d']]
+            # refusals that sit in a spliced helper (`resolve_lineage_cut_v1(..)?`) build their Err into the helper's result, which the
+            # caller then propagates: every other Err construction of the spliced body counts as a validation return too
+            local_errs += [(bi, st) for (bi, si, st) in f.aggregates(r'^core::result::Result$', 'Err') if not (st['d']['l'] == 0 and 'p' not in st['d'])]
             ctx.floor('C10.3', 'validation returns in ' + name, len(local_errs), 3)
             late = [(bi, st) for (bi, st) in local_errs if bi in after]
             ctx.ob('C10.3', f, 'validate-before-create', not late,
